@@ -18,6 +18,7 @@ import (
 )
 
 var H *vdrv.H
+var FW *noderun.FileWorker
 
 type Case struct {
 	Files    map[string]string `json:"files"`
@@ -118,7 +119,7 @@ func judge(c Case) vdrv.Verdict {
 	if c.RefEntry != "" {
 		refStep = noderun.Step{Kind: "require", File: filepath.Join(src, c.RefEntry)}
 	}
-	ref, err := noderun.RunFiles("", src, []noderun.Step{refStep})
+	ref, err := FW.Run([]noderun.Step{refStep})
 	if err != nil {
 		return vdrv.Skip("node-infra")
 	}
@@ -155,7 +156,7 @@ func judge(c Case) vdrv.Verdict {
 	if err := os.WriteFile(step.File, r.OutputFiles[0].Contents, 0o644); err != nil {
 		return vdrv.Skip("tmpdir-write")
 	}
-	got, err := noderun.RunFiles("", outDir, []noderun.Step{step})
+	got, err := FW.Run([]noderun.Step{step})
 	if err != nil {
 		return vdrv.Skip("node-infra")
 	}
@@ -193,7 +194,12 @@ func judge(c Case) vdrv.Verdict {
 		v.Observed = fmt.Sprintf("%d events, end=%s, %d modules", len(ref.Events), ref.Steps[0].End, len(c.Files))
 		return v
 	}
-	return vdrv.Fail("bundle behaves differently from native loading", rt, gt+"\n--- bundle\n"+out)
+	v := vdrv.Fail("bundle behaves differently from native loading", rt, gt+"\n--- bundle\n"+out)
+	if c.Format == "esm" && hasLabel(c.Labels, "export-star-from-cjs") && stripExports(rt) == stripExports(gt) {
+		// known finding C02-esm-export-star-from-cjs: only the entry's export list differs
+		v.Known = "C02-esm-export-star-from-cjs"
+	}
+	return v
 }
 
 // When an ES module imports (statically or dynamically) a CommonJS module that throws, Node reports the
@@ -209,6 +215,15 @@ func dropLoaderNoise(tr string) string {
 		keep = append(keep, l)
 	}
 	return strings.Join(keep, "\n")
+}
+
+func hasLabel(ls []string, l string) bool {
+	for _, x := range ls {
+		if x == l {
+			return true
+		}
+	}
+	return false
 }
 
 func stripExports(tr string) string {
@@ -245,7 +260,7 @@ func key(c Case) string {
 
 func runGraphs(t *testing.T) {
 	H.Rule("graphs", "rapid: module graphs of 2–6 files (.mjs ES modules and .cjs CommonJS modules; edges: named/default/namespace/side-effect imports, export-from, export *, export * as, import(), require; import cycles and self-imports; exported var/let/const/function/class/default, live bindings mutated through exported functions, deferred readers, top-level throws, __esModule-flagged CommonJS) × format {esm, cjs, iife+global name} × platform {node, browser, neutral} × minify; oracle: the same tree loaded by Node 20's native ESM/CJS loaders vs the bundle loaded the way its format demands — event sequence (evaluation order, at-most-once), termination, and the entry's exports; non-trivial = ≥2 modules and ≥2 events")
-	H.SetupRapid("graphs", H.N(700, 40000))
+	H.SetupRapid("graphs", H.N(3000, 200000))
 	rapid.Check(t, func(rt *rapid.T) {
 		g := modgraph.Generate(rt, modgraph.Config{MaxModules: 6, AllowCJS: rapid.Bool().Draw(rt, "cjs"), AllowCycles: rapid.Bool().Draw(rt, "cycles"), AllowDynamic: rapid.Bool().Draw(rt, "dynamic"), AllowThrow: rapid.IntRange(0, 3).Draw(rt, "throw") == 0, MutableLets: rapid.Bool().Draw(rt, "mutable")})
 		c := Case{Files: g.Files(), Entry: g.Modules[0].Name, Labels: g.Labels}
@@ -316,7 +331,7 @@ func drawBytes(rt *rapid.T, label string) []byte {
 
 func runAssets(t *testing.T) {
 	H.Rule("assets", "rapid: byte strings (all 256 values, empty, invalid UTF-8, BOM, lone surrogates in WTF-8, 64 KB) imported through the text/binary/base64/dataurl/json loaders × format × minify; oracle: a reference script that reads the same files with fs and logs the bytes / UTF-8 decoding / base64 / JSON.parse value (the data URL is decoded back to bytes); non-trivial = any non-ASCII or >256-byte payload")
-	H.SetupRapid("assets", H.N(300, 20000))
+	H.SetupRapid("assets", H.N(800, 60000))
 	rapid.Check(t, func(rt *rapid.T) {
 		jsonVals := []string{`{"a":1,"b":[true,null,"x"],"c":{"d":1.5e3}}`, `[1,2,3]`, `"str "`, `123`, `null`, `{"__proto__":{"x":1},"é":"😀","":0}`, "\uFEFF{\"bom\":true}", `{"a":{"b":{"c":{"d":[[[[1]]]]}}}}`, `{"dup":1,"dup":2}`, `1e999`, `-0`, `{"constructor":1,"toString":2}`}
 		c := Case{Entry: "entry.mjs", RefEntry: "ref.cjs", Files: map[string]string{"entry.mjs": assetEntry, "ref.cjs": assetRef},
@@ -338,6 +353,7 @@ func setup(t *testing.T) {
 	if noderun.NodePath() == "" {
 		t.Fatalf("INFRA: node not found")
 	}
+	FW = noderun.NewFileWorker("")
 }
 
 func TestCheck(t *testing.T) {
